@@ -87,19 +87,20 @@ impl ApproximateEqToInt for f64 {
 
 macro_rules! div {
     ($nom:expr, $div:expr) => {
-        if $div.approximate_eq(0) {
+        if $div == 0.0 {
             Err($crate::VariantError::DivisionByZero)
         } else {
-            Ok(($nom / $div).fit_to_type())
+            let quotient = $nom / $div;
+            if quotient.is_finite() {
+                Ok(quotient.fit_to_type())
+            } else {
+                Err($crate::VariantError::Overflow)
+            }
         }
     };
 
     ($nom:expr, $div:expr, $cast:tt) => {
-        if $div.approximate_eq(0) {
-            Err($crate::VariantError::DivisionByZero)
-        } else {
-            Ok(($nom as $cast / $div as $cast).fit_to_type())
-        }
+        div!($nom as $cast, $div as $cast)
     };
 }
 
@@ -340,14 +341,14 @@ impl Variant {
                 Self::VSingle(f_right) => div!(i_left, f_right, f32),
                 Self::VDouble(d_right) => div!(i_left, d_right, f64),
                 Self::VInteger(i_right) => div!(i_left, i_right, f32),
-                Self::VLong(l_right) => div!(i_left, l_right, f32),
+                Self::VLong(l_right) => div!(i_left, l_right, f64),
                 _ => Err(VariantError::TypeMismatch),
             },
             Self::VLong(l_left) => match other {
                 Self::VSingle(f_right) => div!(l_left, f_right, f32),
                 Self::VDouble(d_right) => div!(l_left, d_right, f64),
-                Self::VInteger(i_right) => div!(l_left, i_right, f32),
-                Self::VLong(l_right) => div!(l_left, l_right, f32),
+                Self::VInteger(i_right) => div!(l_left, i_right, f64),
+                Self::VLong(l_right) => div!(l_left, l_right, f64),
                 _ => Err(VariantError::TypeMismatch),
             },
             _ => Err(VariantError::TypeMismatch),
